@@ -15,8 +15,12 @@ LEVEL_TEXT = ("The recipe grammar is modelled rule for rule as a total Lean pars
               "permitted spelling of one abstract description parses/compiles to the same result, and that printing then compiling recovers every string, "
               "number, unit, preposition and amount verbatim, is checked on every generated description by the oracle.")
 LEVEL_NOTE = ("Trusted: Lean kernel (totality of the parser model; theorems about number/token scanners); peggie's PEG semantics as exercised by correspondence. "
-              "The general print/parse round-trip theorem (parse_print) is NOT proved; it is established per generated description (search, not proof).")
-LEAN_MODULES = ["RecipeGrid.Props.C06"]
+              "The print/parse round trip is a theorem for whole blocks of arbitrarily nested statements (recipe_roundtrip, expr_roundtrip, stmt_roundtrip: every "
+              "well-formed spelling - white space chosen independently at every node, trailing commas, parenthesised shorthand, output lists, blank lines - of an "
+              "abstract block parses to its AST; two_spellings_same_ast_mod_offsets; hypothesis-free for plain names, plain_recipe_roundtrip) under explicit "
+              "side conditions at the leaves (a reference not followed by blanks and '('; names that do not read as amounts); compilation of the parsed AST and "
+              "strings with interpolated numbers inside nested positions rest on the lemmas of C06 plus the oracle.")
+LEAN_MODULES = ["RecipeGrid.Props.C06", "RecipeGrid.Props.C06b"]
 SOURCES = ["recipe_grid/parser/grammar.peg", "recipe_grid/parser/ast.py", "recipe_grid/parser/__init__.py", "recipe_grid/units.py", "recipe_grid/compiler.py"]
 RULE = ("abstract descriptions of C01 crossed with two independent random spellings each (quote style per string part, whitespace at each optional position, "
         "shorthand vs nested single-input steps, trailing commas, line breaks in parentheses, fraction layout, unit letter case) plus the canonical spelling; "
